@@ -83,15 +83,31 @@ def check_cp(kernel, g):
     return probs, n, (round(total, 3), round(le, 3), round(lf, 3), tuple(lines))
 
 
+GAPS = {0: None, 1: "after-first", 2: "every-other", 3: "wide"}
+
+
+def gapped_numbers(n, gap):
+    """line numbers of a kernel of n lines: consecutive, one empty line after the first
+    instruction, an empty line after every instruction, or growing gaps far into a file"""
+    if gap == 1:
+        return [1] + [k + 2 for k in range(1, n)]
+    if gap == 2:
+        return [2 * k + 1 for k in range(n)]
+    if gap == 3:
+        return [1200 + k * (k + 3) for k in range(n)]
+    return None
+
+
 def _work(item):
-    famname, idxs = item
+    famname, idxs, gap = item
     fam = c05._FAM[famname]
     ris = [c05._ALPHA[famname][i][1] for i in idxs]
     out = {"bad": [], "n": 0, "sig": []}
     has_flag = any(r.tag in FLAG_MN for r in ris)
     for flags in ((True, False) if has_flag else (False,)):
         try:
-            kernel, g = dgfam.observe(fam, ris, flags, full=False)
+            kernel, g = dgfam.observe(fam, ris, flags, full=False,
+                                      line_numbers=gapped_numbers(len(ris), gap))
             probs, n, sig = check_cp(kernel, g)
             out["n"] += n
             out["sig"].append(sig)
@@ -156,13 +172,19 @@ def run(ctx):
         n = len(c05._ALPHA[famname])
         rng = list(range(n))
         for l in (1, 2):
-            items += [(famname, t) for t in itertools.product(rng, repeat=l)]
+            items += [(famname, t, 0) for t in itertools.product(rng, repeat=l)]
         red = rng if ctx.thorough else rng[::2]
-        items += [(famname, t) for t in itertools.product(red, repeat=3)]
+        items += [(famname, t, 0) for t in itertools.product(red, repeat=3)]
         if ctx.thorough:
-            items += [(famname, t) for t in itertools.product(rng[::4], repeat=4)]
+            items += [(famname, t, 0) for t in itertools.product(rng[::4], repeat=4)]
+        # the same with empty lines inside the region (line numbers increasing, not consecutive)
+        for gap in (1, 2, 3):
+            items += [(famname, t, gap) for t in itertools.product(rng, repeat=2)]
+            r3 = rng[::2] if ctx.thorough else rng[::4]
+            items += [(famname, t, gap) for t in itertools.product(r3, repeat=3)]
+            items += [(famname, t, gap) for t in itertools.product(rng[::5], repeat=4)]
     out = core.pmap(_work, core.rotate(items, ctx.seed))
-    for (famname, idxs), o in out:
+    for (famname, idxs, gap), o in out:
         res.states += 1
         res.traces += 1
         res.transitions += o["n"]
@@ -172,11 +194,14 @@ def run(ctx):
         ris = [c05._ALPHA[famname][i][1] for i in idxs]
         for kind, flags, what in o["bad"]:
             res.violations.append(core.Violation(
-                {"kind": kind, "part": "synthetic", "isa": c05._FAM[famname].isa},
-                "[%s flags=%s] kernel %r: %s" % (famname, flags, [r.text for r in ris], what),
-                {"part": "synthetic", "family": famname, "idxs": list(idxs),
+                {"kind": kind, "part": "synthetic", "isa": c05._FAM[famname].isa,
+                 "line_numbers": GAPS[gap] or "consecutive"},
+                "[%s flags=%s line numbers %s] kernel %r: %s"
+                % (famname, flags, gapped_numbers(len(ris), gap) or "consecutive",
+                   [r.text for r in ris], what),
+                {"part": "synthetic", "family": famname, "idxs": list(idxs), "gap": gap,
                  "kernel": [r.text for r in ris], "flags": flags, "what": what}))
-    for (famname, idxs), o in out[100:102] + out[len(out) // 2: len(out) // 2 + 2]:
+    for (famname, idxs, gap), o in out[100:102] + out[len(out) // 2: len(out) // 2 + 2]:
         res.add_sample({"family": famname,
                         "kernel": [c05._ALPHA[famname][i][1].text for i in idxs],
                         "(cp, L_exec, L_full, marked lines)": o["sig"]})
@@ -228,7 +253,7 @@ def replay(ctx, payload):
     r = payload["replay"]
     if r["part"] == "synthetic":
         c05.setup(ctx, "c04")
-        _, o = _work((r["family"], tuple(r["idxs"])))
+        _, o = _work((r["family"], tuple(r["idxs"]), r.get("gap", 0)))
     else:
         drive.stage_and_parse(ctx, [r["arch"], "isa/x86", "isa/aarch64"])
         mm = drive.MachineModel(arch=r["arch"])
